@@ -272,6 +272,37 @@ def build(params):
     return Harness(args, pre, case, fuel=400)
 
 
+def big_view_nodes(wd, gfa, rep=1500):
+    """index + view -n on a BGZF GAF of several blocks vs. its plain copy"""
+    import pysam
+    import gaftools.cli.view as V
+    import gaftools.cli.index as I
+    import gc
+
+    gaf = os.path.join(wd, "big.gaf")
+    with open(gaf, "w") as fh:
+        for j in range(rep):
+            for l in LINES:
+                f = l.rstrip("\n").split("\t")
+                f[0] = f[0].split(" ")[0] + "x%d" % j
+                fh.write("\t".join(f) + "\tzz:Z:" + "pad" * 10 + "\n")
+    pysam.tabix_compress(gaf, gaf + ".gz", force=True)
+    outs = []
+    for g in (gaf, gaf + ".gz"):
+        try:
+            I.run(g, gfa)
+            o = g + ".sel"
+            V.run(g, output=o, nodes=["b0"])
+            gc.collect()
+            outs.append(open(o).read().splitlines())
+        except BaseException as e:  # noqa
+            return "index + view -n b0 on %s (%d records, several BGZF blocks) raised %s: %s" % (os.path.basename(g), rep * len(LINES), type(e).__name__, e)
+    if outs[0] != outs[1]:
+        return "view -n b0 returns %d records for the plain file and %d for its multi-block BGZF copy (first differing line %r)" % (
+            len(outs[0]), len(outs[1]), next((y for x, y in zip(outs[0], outs[1]) if x != y), None))
+    return None
+
+
 def replay(params, model, wd):
     """real files: plain vs bgzip GAF / plain vs gzip GFA through the real CLI functions"""
     import gzip
@@ -321,7 +352,10 @@ def replay(params, model, wd):
                     ga, gb = GAF(gaf), GAF(zgaf)
                     oa, ob = offsets(gaf), offsets(zgaf)
                     bad = any(rec_fields(ga.read_line(oa[i])) != a[i] or rec_fields(gb.read_line(ob[i])) != a[i] for i in (2, 0, 1))
-                return {"reproduced": bad, "key": "C17:gaf:reader", "what": "GAF reader gives different records for plain / BGZF"}
+                if bad:
+                    return {"reproduced": True, "key": "C17:gaf:reader", "what": "GAF reader gives different records for plain / BGZF"}
+                big = big_view_nodes(wd, gfa)
+                return {"reproduced": bool(big), "key": "C17:gaf:reader:multi-block-bgzf", "what": big or "same records, also through offsets of a multi-block file"}
             if cons in ("index", "index-stable"):
                 I.run(gaf, gfa, output=out("a.gvi"))
                 I.run(zgaf, gfa, output=out("b.gvi"))
@@ -380,6 +414,10 @@ def replay(params, model, wd):
             for a, b in pairs:
                 if a != b or a is None:
                     return {"reproduced": True, "key": "C17:gaf:" + cons, "what": "%s: plain %r vs BGZF %r" % (cons, a, b)}
+            if cons in ("view-nodes", "reader"):
+                big = big_view_nodes(wd, gfa)
+                if big:
+                    return {"reproduced": True, "key": "C17:gaf:%s:multi-block-bgzf" % cons, "what": big}
             return {"reproduced": False, "detail": "same results"}
         gz = gfa + ".gz"
         if cons == "view-format":
